@@ -70,9 +70,10 @@ Definition m_add (fx10 : bool) (p : name) (m : mtype) (es : mentries) : mentries
   | None => es ++ [(p, m)]
   end.
 
-Record fixes := mkFx { fx9 : bool; fx10 : bool; fx11 : bool; fx14 : bool; fx15 : bool; fx34 : bool; fx37 : bool; fx38 : bool }.
-Definition PINNED := mkFx false false false false false false false false.
-Definition FIXED := mkFx true true true true true true true true.
+Record fixes := mkFx { fx9 : bool; fx10 : bool; fx11 : bool; fx14 : bool; fx15 : bool; fx34 : bool; fx37 : bool; fx38 : bool;
+                       fx35 : bool; fx42 : bool }.
+Definition PINNED := mkFx false false false false false false false false false false.
+Definition FIXED := mkFx true true true true true true true true true true.
 
 Inductive packaging := PZip | PFolder | PXml.
 Definition pk_eqb (a b : packaging) := match a, b with PZip, PZip | PFolder, PFolder | PXml, PXml => true | _, _ => false end.
@@ -150,12 +151,21 @@ Definition c_set_part (fx : fixes) (n : name) (b : bytes) (c : container) : cont
       (cpath c) (pkg c).
 Definition c_del_part (n : name) (c : container) : container := c_with_parts c (upsert n None (parts c)).
 
-(* Container.parts *)
-Definition c_listing (fs : fsys) (c : container) : list name :=
+(* Container.parts.  As found (F35): the members of the file for a container with a path, the keys of the part map (deleted ones
+   included) otherwise.  Repaired (fixes/F35-*.diff): the members of the file not deleted since, then the parts added in memory *)
+Definition c_stored (fs : fsys) (c : container) : list name :=
   match cpath c with
-  | None => map fst (parts c)
+  | None => []
   | Some p => match pkg c with PXml => [] | _ => match disk_entries fs p with Some es => map fst es | None => [] end end
   end.
+Definition c_listing (fx : fixes) (fs : fsys) (c : container) : list name :=
+  if fx35 fx then
+    filter (fun n => match lookup n (parts c) with Some None => false | _ => true end) (c_stored fs c)
+    ++ flat_map (fun e => match snd e with Some _ => if memz (fst e) (c_stored fs c) then [] else [fst e] | None => [] end) (parts c)
+  else match cpath c with
+       | None => map fst (parts c)
+       | Some _ => c_stored fs c
+       end.
 
 Definition c_load_missing (fx : fixes) (fs : fsys) (ns : list name) (c : container) : container :=
   fold_left (fun c n => match lookup n (parts c) with None => fst (c_get_part fx fs n c) | Some _ => c end) ns c.
@@ -181,7 +191,7 @@ Definition flat_kids (c : container) : list kid :=
 
 (* Container.save *)
 Definition c_save (fx : fixes) (fs : fsys) (c : container) (t : target) (pk : packaging) : container * option fsys :=
-  let c1 := c_load_missing fx fs (c_listing fs c) c in
+  let c1 := c_load_missing fx fs (c_listing fx fs c) c in
   match pk with
   | PFolder => match t with TBuf _ => (c1, None) | TPath p => (c1, Some (upsert p (FDir (live c1)) fs)) end
   | PXml => match lookup MIMETYPE (live c1) with
@@ -202,7 +212,7 @@ Definition c_load_all_zip (fx : fixes) (fs : fsys) (c : container) : container :
 Definition c_clone (fx : fixes) (fs : fsys) (c : container) : container * container :=
   let c1 := match cpath c, pkg c with
             | Some _, PZip => c_load_all_zip fx fs c
-            | Some _, PFolder => if fx38 fx then c_load_missing fx fs (c_listing fs c) c else c
+            | Some _, PFolder => if fx38 fx then c_load_missing fx fs (c_listing fx fs c) c else c
             | _, _ => c end in
   (c1, mkC (parts c1) (tsl c1) None (pkg c1)).
 
@@ -276,13 +286,16 @@ Definition ser_loop (fx : fixes) (fs : fsys) (pty : bool) (ns : list name) (d : 
                | None => (dd, false)
                end) ns (d, true).
 
+(* is manifest.rdf listed?  As found (F42) the truth value of its media type is tested; repaired: [is not None] *)
+Definition rdf_listed (fx : fixes) (es : mentries) : bool :=
+  match m_get RDF es with Some m => fx42 fx || negb (m =? EMPTYMT) | None => false end.
 Definition check_rdf (fx : fixes) (fs : fsys) (d : document) : document * bool :=
   let '(d1, om) := d_tree fx fs MANIFEST d in
   match om with
   | None => (d1, false)
   | Some xm =>
-      let listing := c_listing fs (cont d1) in
-      let truthy := match m_get RDF (entries xm) with Some m => negb (m =? EMPTYMT) | None => false end in
+      let listing := c_listing fx fs (cont d1) in
+      let truthy := rdf_listed fx (entries xm) in
       (if truthy then (if memz RDF listing then d1 else d_with_cont d1 (c_set_part fx RDF rdf0 (cont d1)))
        else (if memz RDF listing then d_with_cont d1 (c_del_part RDF (cont d1)) else d1), true)
   end.
@@ -398,8 +411,9 @@ Definition step (fx : fixes) (s : fsys * document) (o : op) : (fsys * document) 
 Definition run (fx : fixes) (s : fsys * document) (os : list op) : fsys * document := fold_left (fun s o => fst (step fx s o)) os s.
 
 (* ---------------------------------------------------------------- what a reader is entitled to see *)
-Variable mask : xml -> xml.             (* the projection the property allows: generator stamp (and, for pretty, layout) removed *)
-Inductive content := CBytes (b : bytes) | CXml (x : xml).
+Variable proj : Type.                   (* what a reader is entitled to see of an XML part: any projection ... *)
+Variable mask : xml -> proj.            (* ... e.g. the infoset with the generator stamp removed; for pretty, the layout-insensitive reading *)
+Inductive content := CBytes (b : bytes) | CXml (x : proj).
 (* bytes of a part as the container holds them: memory first, unread members come from the file *)
 Definition bytes_of (fs : fsys) (d : document) (n : name) : option bytes :=
   match lookup n (parts (cont d)) with
@@ -434,10 +448,9 @@ Fixpoint nodupb (l : list Z) : bool := match l with [] => true | x :: r => negb 
 Definition declared (es : mentries) : list name := filter (fun n => negb (is_dir n)) (map fst es).
 Definition is_file_part (fs : fsys) (d : document) (n : name) : bool :=
   negb (is_dir n) && negb (n =? MIMETYPE) && negb (n =? MANIFEST) && match bytes_of fs d n with Some _ => true | None => false end.
-(* every entry carries a media type; manifest.rdf, when listed, a non-empty one (else save deletes the part and keeps
-   the entry: F42) *)
+(* every entry carries a media type (manifest:media-type is a required attribute) *)
 Definition entries_typed (es : mentries) : bool :=
-  forallb (fun e => negb (snd e =? NOMT) && negb ((fst e =? RDF) && (snd e =? EMPTYMT))) es.
+  forallb (fun e => negb (snd e =? NOMT)) es.
 Definition PkgOK (fs : fsys) (d : document) : Prop :=
   exists xm mb, tree_of fs d MANIFEST = Some xm /\ bytes_of fs d MIMETYPE = Some mb /\
     NoDup (declared (entries xm)) /\
@@ -496,7 +509,7 @@ End Pkg.
 
 Arguments FZip {bytes kid}. Arguments FDir {bytes kid}. Arguments FFlat {bytes kid}.
 Arguments mkC {bytes}. Arguments mkD {xml bytes}.
-Arguments CBytes {xml bytes}. Arguments CXml {xml bytes}.
+Arguments CBytes {bytes proj}. Arguments CXml {bytes proj}.
 Arguments OOpen {xml bytes}. Arguments ONew {xml bytes}. Arguments OGetPart {xml bytes}. Arguments OTouch {xml bytes}.
 Arguments OEdit {xml bytes}. Arguments OSetPart {xml bytes}. Arguments ODelPart {xml bytes}. Arguments OAddFile {xml bytes}.
 Arguments OImport {xml bytes}. Arguments OSave {xml bytes}. Arguments OClone {xml bytes}. Arguments OMerge {xml bytes}.
@@ -531,12 +544,12 @@ Definition cx_eqb_exact := cx_eqb.
 (* layout ignored altogether (after a pretty save) *)
 Definition cx_eqb_loose (a b : cxml) : bool :=
   match a, b with CX s l es ks, CX s' l' es' ks' => (l =? l') && list_eqb ent_eqb es es' && list_eqb Z.eqb ks ks' end.
-Definition ccont_eqb_loose (a b : content cxml cbytes) : bool :=
+Definition ccont_eqb_loose (a b : content cbytes cxml) : bool :=
   match a, b with CBytes (CB x), CBytes (CB y) => x =? y | CBytes (CS x), CBytes (CS y) => cx_eqb_loose x y
                 | CXml x, CXml y => cx_eqb_loose x y | _, _ => false end.
 Definition cb_eqb (a b : cbytes) : bool :=
   match a, b with CB x, CB y => x =? y | CS x, CS y => cx_eqb x y | _, _ => false end.
-Definition ccont_eqb (a b : content cxml cbytes) : bool :=
+Definition ccont_eqb (a b : content cbytes cxml) : bool :=
   match a, b with CBytes x, CBytes y => cb_eqb x y | CXml x, CXml y => cx_eqb x y | _, _ => false end.
 Definition opt_eqb {A} (e : A -> A -> bool) (a b : option A) : bool :=
   match a, b with Some x, Some y => e x y | None, None => true | _, _ => false end.
@@ -546,8 +559,8 @@ Notation cfs := (fsys cbytes Z).
 Notation cop := (op cxml cbytes).
 Definition cstep (fx : fixes) := step cxml cbytes Z cser cpar cpretty cstamp centries cwith_entries ckids cmime cmime_bytes crdf0 fx.
 Definition cd_clone (fx : fixes) := d_clone cxml cbytes Z cser cpar fx.
-Definition cview := view cxml cbytes Z cpar cmask.
-Definition cfile_view := file_view cxml cbytes Z cpar cmask.
+Definition cview := view cxml cbytes Z cpar cxml cmask.
+Definition cfile_view := file_view cxml cbytes Z cpar cxml cmask.
 Definition cPkgOKb := PkgOKb cxml cbytes Z cpar centries cmime.
 Definition cwfb := wfb cxml cbytes Z.
 Definition cts_invb := ts_invb cxml cbytes Z.
